@@ -448,6 +448,30 @@ pub fn gen_perm_cases(tier: &str, seed: u64, out: &mut Vec<String>) {
     }
 }
 
+/// C10: the areas a load creates are areas like the others — exact extents (to the page end, not beyond), then allocations
+/// right behind and right in front of each of them
+pub fn gen_layout_cases(tier: &str, seed: u64, out: &mut Vec<String>) {
+    let mut rng = Rng::new(seed ^ 0xE1F0);
+    let n = if tier == "thorough" { 600 } else { 60 };
+    for _ in 0..n {
+        let mut spec = well_formed(&mut rng);
+        let (bytes, _) = build(&mut spec);
+        out.push("new".into());
+        out.push(format!("elfload {}", hex(&bytes)));
+        out.push("areas".into());
+        for s in spec.segs.iter().filter(|s| s.ptype == PT_LOAD) {
+            let end = round_up(s.vaddr + s.memsz);
+            out.push(format!("mr 1 {:x}", end));
+            out.push(format!("mr 1 {:x}", end - 1));
+            out.push(format!("zero {:x} {:x} ~", end, 1 + rng.below(0x20)));
+            if s.vaddr & 0xfff != 0 {
+                out.push(format!("zero {:x} {:x} ~", s.vaddr & !0xfff, *rng.pick(&[1u64, s.vaddr & 0xfff, (s.vaddr & 0xfff) + 1])));
+            }
+        }
+        out.push("areas".into());
+    }
+}
+
 pub fn observe_plain(spec: &Spec, rng: &mut Rng, out: &mut Vec<String>) {
     observe(spec, rng, out, false)
 }
